@@ -387,12 +387,24 @@ fn main() {
         "skin-random",
         n_skin,
         pt::Opts::default(),
-        skin_spec,
-        js,
-        |s| {
+        || skin_spec(x),
+        |(s, _)| js(s),
+        |(s, fired)| {
+            for f in fired {
+                check.bump(&format!("excluded:{f}"), 1);
+            }
             check.sample(&skin_class(s).0, || js(s));
             run_skin(&check, "", s)
         },
+    );
+    pt::run(
+        &check,
+        "skin-random-unrestricted",
+        check.tier.pick(600u32, 20_000),
+        pt::Opts::default(),
+        || skin_spec(Excl::none()),
+        |(s, _)| js(s),
+        |(s, _)| run_skin(&check, "open:", s),
     );
     let n_anim = check.tier.pick(6_000u32, 200_000);
     pt::run(
@@ -400,9 +412,23 @@ fn main() {
         "anim-random",
         n_anim,
         pt::Opts::default(),
-        anim_spec,
-        ja,
-        |a| run_anim(&check, "", a),
+        || anim_spec(x),
+        |(a, _)| ja(a),
+        |(a, fired)| {
+            for f in fired {
+                check.bump(&format!("excluded:{f}"), 1);
+            }
+            run_anim(&check, "", a)
+        },
+    );
+    pt::run(
+        &check,
+        "anim-random-unrestricted",
+        check.tier.pick(600u32, 20_000),
+        pt::Opts::default(),
+        || anim_spec(Excl::none()),
+        |(a, _)| ja(a),
+        |(a, _)| run_anim(&check, "open:", a),
     );
 
     // self-test: essential classes were hit by the grid whatever the seed
